@@ -302,18 +302,29 @@ impl<'a> Parser<'a> {
         }
     }
 
+    /// Consumes a keyword that introduces a top-level declaration.  A stanza's query may start
+    /// with a field name (`attribute: (identifier) @x`), which is not a keyword even if it is
+    /// spelled like one.
+    fn consume_declaration_keyword(&mut self, keyword: &'static str) -> Result<(), ParseError> {
+        let rest = &self.source[self.offset..];
+        if rest.starts_with(keyword) && rest[keyword.len()..].trim_start().starts_with(':') {
+            return Err(ParseError::ExpectedToken(keyword, self.location));
+        }
+        self.consume_keyword(keyword)
+    }
+
     fn parse_into_file(&mut self, file: &mut ast::File) -> Result<(), ParseError> {
         self.consume_whitespace();
         while self.try_peek().is_some() {
-            if let Ok(_) = self.consume_token("attribute") {
+            if let Ok(_) = self.consume_declaration_keyword("attribute") {
                 self.consume_whitespace();
                 let shorthand = self.parse_shorthand()?;
                 file.shorthands.add(shorthand);
-            } else if let Ok(_) = self.consume_token("global") {
+            } else if let Ok(_) = self.consume_declaration_keyword("global") {
                 self.consume_whitespace();
                 let global = self.parse_global()?;
                 file.globals.push(global);
-            } else if let Ok(_) = self.consume_token("inherit") {
+            } else if let Ok(_) = self.consume_declaration_keyword("inherit") {
                 self.consume_whitespace();
                 self.consume_token(".")?;
                 let name = self.parse_identifier("inherit")?;
